@@ -89,8 +89,32 @@ package codec
 
 // ---- variable width: stdlib varints (encoding/binary is an assumed inverse pair) ----------------
 
-// vlen/vbyte: the image produced by binary.PutVarint / PutUvarint, uninterpreted; the assumed contracts of
-// the four stdlib functions live in /verif/contracts/_external/binary.go.
+// The image produced by binary.PutVarint / PutUvarint is uninterpreted (isUv / isV); the assumed contracts of the
+// four stdlib functions live in /verif/contracts/_external/binary.go.
+
+//@ func EncodeUvarint
+//@   prop C19
+//@   ensures len: len(result) == len(b) + uvLen(v)
+//@   ensures prefix: keeps(result, b)
+//@   ensures image: isUv(result, len(b), v)
+
+//@ func EncodeVarint
+//@   prop C19
+//@   ensures len: len(result) == len(b) + vLen(v)
+//@   ensures prefix: keeps(result, b)
+//@   ensures image: isV(result, len(b), v)
+
+//@ func DecodeUvarint
+//@   prop C19
+//@   safety
+//@   ensures roundtrip: forall v uint64 :: len(b) >= uvLen(v) && isUv(b, 0, v) ==> result2 == nil && result1 == v && result0 == b[uvLen(v):]
+//@   ensures rest: result2 == nil ==> exists n int :: 0 < n && n <= len(b) && result0 == b[n:]
+
+//@ func DecodeVarint
+//@   prop C19
+//@   safety
+//@   ensures roundtrip: forall v int64 :: len(b) >= vLen(v) && isV(b, 0, v) ==> result2 == nil && result1 == v && result0 == b[vLen(v):]
+//@   ensures rest: result2 == nil ==> exists n int :: 0 < n && n <= len(b) && result0 == b[n:]
 
 // ---- comparable varints ------------------------------------------------------------------------
 
@@ -231,3 +255,63 @@ package codec
 //@   ensures len: len(result) == len(b) + encLen(len(data))
 //@   ensures prefix: keeps(result, b)
 //@   ensures image: isEncB(result, len(b), data)
+
+// decodeBytes (reverse == false is the only mode reachable from the exported API):
+// sound: whatever is accepted is the canonical image of the returned data, and the rest is the unconsumed suffix;
+// roundtrip: every canonical image is accepted and decoded to its data. (The conjunct b[9*(len(d)/8)+8] <= 255 is
+// always true for a byte; it only names the last marker byte so that the solver instantiates the facts about it.)
+//@ func decodeBytes
+//@   prop C19
+//@   safety
+//@   loop 1 invariant glen: len(buf)%8 == 0 && 9*(len(buf)/8) <= len(old(b))
+//@   loop 1 invariant suffix: b == old(b)[9*(len(buf)/8):]
+//@   loop 1 invariant markers: !reverse ==> forall j int :: 0 <= j && j < 9*(len(buf)/8) && j%9 == 8 ==> old(b)[j] == 255
+//@   loop 1 invariant data: forall j int :: 0 <= j && j < len(buf) ==> buf[j] == old(b)[9*(j/8)+j%8]
+//@   loop 2 unroll 8
+//@   ensures sound: !reverse && result2 == nil ==> len(b) >= encLen(len(result1)) && isEncB(b, 0, result1) && result0 == b[encLen(len(result1)):]
+//@   ensures rt_ok: !reverse ==> forall d []byte :: len(b) >= encLen(len(d)) && isEncB(b, 0, d) && b[9*(len(d)/8)+8] <= 255 ==> result2 == nil
+//@   ensures rt_len: !reverse && result2 == nil ==> forall d []byte :: len(b) >= encLen(len(d)) && isEncB(b, 0, d) && b[9*(len(d)/8)+8] <= 255 ==> len(result1) == len(d) && result0 == b[encLen(len(d)):]
+//@   ensures rt_data: !reverse && result2 == nil ==> forall d []byte :: len(b) >= encLen(len(d)) && isEncB(b, 0, d) && b[9*(len(d)/8)+8] <= 255 ==> (forall i int :: 0 <= i && i < len(d) ==> result1[i] == d[i])
+
+//@ func DecodeBytes
+//@   prop C19
+//@   safety
+//@   ensures sound: result2 == nil ==> len(b) >= encLen(len(result1)) && isEncB(b, 0, result1) && result0 == b[encLen(len(result1)):]
+//@   ensures rt_ok: forall d []byte :: len(b) >= encLen(len(d)) && isEncB(b, 0, d) && b[9*(len(d)/8)+8] <= 255 ==> result2 == nil
+//@   ensures rt_len: result2 == nil ==> forall d []byte :: len(b) >= encLen(len(d)) && isEncB(b, 0, d) && b[9*(len(d)/8)+8] <= 255 ==> len(result1) == len(d) && result0 == b[encLen(len(d)):]
+//@   ensures rt_data: result2 == nil ==> forall d []byte :: len(b) >= encLen(len(d)) && isEncB(b, 0, d) && b[9*(len(d)/8)+8] <= 255 ==> (forall i int :: 0 <= i && i < len(d) ==> result1[i] == d[i])
+
+// ---- order and prefix-freeness (pure lemmas over the image predicates) ---------------------------------
+
+// lexLt8: byte-wise (memcmp) order of two 8-byte strings; lexLtUpTo: a differs from b within the first n bytes and is
+// smaller at the first difference (so neither string is a prefix of the other within n bytes).
+//@ spec func lexLt8(a []byte, b []byte) bool { return (a[0] < b[0]) || (a[0] == b[0] && a[1] < b[1]) || (a[0] == b[0] && a[1] == b[1] && a[2] < b[2]) || (a[0] == b[0] && a[1] == b[1] && a[2] == b[2] && a[3] < b[3]) || (a[0] == b[0] && a[1] == b[1] && a[2] == b[2] && a[3] == b[3] && a[4] < b[4]) || (a[0] == b[0] && a[1] == b[1] && a[2] == b[2] && a[3] == b[3] && a[4] == b[4] && a[5] < b[5]) || (a[0] == b[0] && a[1] == b[1] && a[2] == b[2] && a[3] == b[3] && a[4] == b[4] && a[5] == b[5] && a[6] < b[6]) || (a[0] == b[0] && a[1] == b[1] && a[2] == b[2] && a[3] == b[3] && a[4] == b[4] && a[5] == b[5] && a[6] == b[6] && a[7] < b[7]) }
+//@ spec func eq8(a []byte, b []byte) bool { return a[0] == b[0] && a[1] == b[1] && a[2] == b[2] && a[3] == b[3] && a[4] == b[4] && a[5] == b[5] && a[6] == b[6] && a[7] == b[7] }
+//@ spec func lexLtUpTo(a []byte, b []byte, n int) bool { return (0 < n && a[0] < b[0]) || (1 < n && a[0] == b[0] && a[1] < b[1]) || (2 < n && a[0] == b[0] && a[1] == b[1] && a[2] < b[2]) || (3 < n && a[0] == b[0] && a[1] == b[1] && a[2] == b[2] && a[3] < b[3]) || (4 < n && a[0] == b[0] && a[1] == b[1] && a[2] == b[2] && a[3] == b[3] && a[4] < b[4]) || (5 < n && a[0] == b[0] && a[1] == b[1] && a[2] == b[2] && a[3] == b[3] && a[4] == b[4] && a[5] < b[5]) || (6 < n && a[0] == b[0] && a[1] == b[1] && a[2] == b[2] && a[3] == b[3] && a[4] == b[4] && a[5] == b[5] && a[6] < b[6]) || (7 < n && a[0] == b[0] && a[1] == b[1] && a[2] == b[2] && a[3] == b[3] && a[4] == b[4] && a[5] == b[5] && a[6] == b[6] && a[7] < b[7]) || (8 < n && a[0] == b[0] && a[1] == b[1] && a[2] == b[2] && a[3] == b[3] && a[4] == b[4] && a[5] == b[5] && a[6] == b[6] && a[7] == b[7] && a[8] < b[8]) }
+
+//@ lemma orderBE64(a []byte, b []byte)
+//@   prop C19
+//@   ensures lt: (be64(a, 0) < be64(b, 0)) == lexLt8(a, b)
+//@   ensures eq: (be64(a, 0) == be64(b, 0)) == eq8(a, b)
+
+//@ lemma orderCmpU(x int64, y int64)
+//@   prop C19
+//@   ensures mono: (x < y) == (cmpU(x) < cmpU(y))
+//@   ensures range: 0 <= mathint(cmpU(x)) && mathint(cmpU(x)) <= 18446744073709551615
+
+//@ lemma orderInv64(x uint64, y uint64)
+//@   prop C19
+//@   ensures anti: (x < y) == (inv64(y) < inv64(x))
+//@   ensures range: 0 <= mathint(inv64(x)) && mathint(inv64(x)) <= 18446744073709551615
+
+// Comparable varints: a smaller value has a byte-wise smaller image, and the images differ within the shorter one
+// (hence no image is a proper prefix of another, and distinct values have distinct images).
+//@ lemma orderCUvar(a []byte, b []byte, x uint64, y uint64)
+//@   prop C19
+//@   requires isCUvar(a, 0, x) && isCUvar(b, 0, y) && x < y
+//@   ensures lexLtUpTo(a, b, min(cuvLen(x), cuvLen(y)))
+
+//@ lemma orderCVar(a []byte, b []byte, x int64, y int64)
+//@   prop C19
+//@   requires isCVar(a, 0, x) && isCVar(b, 0, y) && x < y
+//@   ensures lexLtUpTo(a, b, min(cvLen(x), cvLen(y)))
